@@ -1,14 +1,14 @@
 //! vq_btree: replay B+ tree scenarios (C17) on vibesql_storage::btree::BTreeIndex over a PageManager on a
 //! temporary directory and record one ndjson event per call.
 //!
-//! usage: vq_btree --in scenarios.ndjson --out events.ndjson [--cfg name]
+//! usage: vq_btree --in scenarios.ndjson --out events.ndjson [--cfg name] [--storage nosync|native]
 //!
 //! scenario line: {"id": "...", "steps": [hdr, call, ...]}
 //!   hdr  = {"a":"new"|"bulk","schema":S,"nu":N,"stride":D,"pr":true,"ents":[[rank,rowid],..],
 //!           "U":[key,..] (concrete keys, key = [{"t":"n|i|s","n":int,"c":[code points]},..]),
 //!           "R":[[lo rank|0, hi rank|0, lo inclusive 0|1, hi inclusive 0|1],..], "M":[[rank,..],..]}
 //!   call = {"a":"ins","k":rank,"r":rowid,"pr":bool} | {"a":"del","k":rank} | {"a":"dels","k":rank,"r":rowid}
-//!        | {"a":"reload"} | {"a":"reopen"}
+//!        | {"a":"seq","ops":[[rank,rowid],..]} (a run of inserts) | {"a":"reload"} | {"a":"reopen"}
 //! Keys are referred to by their rank (1-based position in U).  The harness holds no expectations: it turns ranks into
 //! SqlValue keys, calls the public API and projects the answers back (row ids; decoded pages with keys as ranks).
 //!
@@ -29,7 +29,7 @@ use std::time::{Duration, Instant};
 use vibesql_storage::btree::BTreeIndex;
 use vibesql_storage::page::{PageManager, PAGE_SIZE};
 use vibesql_storage::persistence::binary::value::read_sql_value;
-use vibesql_storage::NativeStorage;
+use vibesql_storage::{NativeStorage, StorageBackend, StorageError, StorageFile};
 use vibesql_types::{DataType, SqlValue};
 
 type Key = Vec<SqlValue>;
@@ -84,9 +84,33 @@ struct Sut {
     idx: BTreeIndex,
 }
 
+/// NativeStorage with the fsync calls turned into no-ops (PageManager::write_page syncs after every page, ~1 ms each on
+/// this disk): everything else - open/truncate, read_at, write_at - is the real backend.  `--storage native` uses
+/// NativeStorage itself.
+struct NoSyncFile(Box<dyn StorageFile>);
+impl StorageFile for NoSyncFile {
+    fn read_at(&mut self, offset: u64, buf: &mut [u8]) -> Result<usize, StorageError> { self.0.read_at(offset, buf) }
+    fn write_at(&mut self, offset: u64, buf: &[u8]) -> Result<usize, StorageError> { self.0.write_at(offset, buf) }
+    fn sync_all(&mut self) -> Result<(), StorageError> { Ok(()) }
+    fn sync_data(&mut self) -> Result<(), StorageError> { Ok(()) }
+    fn size(&self) -> Result<u64, StorageError> { self.0.size() }
+}
+struct NoSyncStorage(NativeStorage);
+impl StorageBackend for NoSyncStorage {
+    fn create_file(&self, path: &str) -> Result<Box<dyn StorageFile>, StorageError> { Ok(Box::new(NoSyncFile(self.0.create_file(path)?))) }
+    fn open_file(&self, path: &str) -> Result<Box<dyn StorageFile>, StorageError> { Ok(Box::new(NoSyncFile(self.0.open_file(path)?))) }
+    fn delete_file(&self, path: &str) -> Result<(), StorageError> { self.0.delete_file(path) }
+    fn file_exists(&self, path: &str) -> bool { self.0.file_exists(path) }
+    fn file_size(&self, path: &str) -> Result<u64, StorageError> { self.0.file_size(path) }
+}
+
+static NATIVE: std::sync::atomic::AtomicBool = std::sync::atomic::AtomicBool::new(false);
+
 fn open_pm(dir: &Path) -> Result<Arc<PageManager>, String> {
-    let storage = Arc::new(NativeStorage::new(dir).map_err(|e| format!("{:?}", e))?);
-    Ok(Arc::new(PageManager::new(DB_FILE, storage).map_err(|e| format!("{:?}", e))?))
+    let native = NativeStorage::new(dir).map_err(es)?;
+    let storage: Arc<dyn StorageBackend> =
+        if NATIVE.load(std::sync::atomic::Ordering::Relaxed) { Arc::new(native) } else { Arc::new(NoSyncStorage(native)) };
+    Ok(Arc::new(PageManager::new(DB_FILE, storage).map_err(es)?))
 }
 
 /// outcome class + message of a fallible call executed under catch_unwind
@@ -270,6 +294,18 @@ fn probes(sut: &Sut, ukeys: &[Key], hdr: &Value, ev: &mut Value) {
     ev["dump"] = dump(sut, ukeys);
 }
 
+/// the step as echoed in the event: the universe and the battery of the header are not repeated (the validator
+/// recomputes them from schema / nu / stride)
+fn echo(a: &Value) -> Value {
+    let mut a = a.clone();
+    if let Some(o) = a.as_object_mut() {
+        o.remove("U");
+        o.remove("R");
+        o.remove("M");
+    }
+    a
+}
+
 fn render(a: &Value, ukeys: &[Key]) -> String {
     let k = |f: &str| -> String {
         let r = a[f].as_u64().unwrap_or(0) as usize;
@@ -285,6 +321,8 @@ fn render(a: &Value, ukeys: &[Key]) -> String {
             a["ents"].as_array().map(|x| x.iter().map(|e| e[0].as_u64().unwrap_or(0)).collect::<Vec<_>>()).unwrap_or_default()
         ),
         "ins" => format!("insert({}, rid {})", k("k"), a["r"]),
+        "seq" => format!("insert x{}: ranks {:?}", a["ops"].as_array().map(|x| x.len()).unwrap_or(0),
+            a["ops"].as_array().map(|x| x.iter().map(|e| e[0].as_u64().unwrap_or(0)).collect::<Vec<_>>()).unwrap_or_default()),
         "del" => format!("delete({})", k("k")),
         "dels" => format!("delete_specific({}, rid {})", k("k"), a["r"]),
         "reload" => "BTreeIndex::load(same PageManager)".to_string(),
@@ -314,7 +352,12 @@ fn worker(inp: &str, out: &str, cfg: &str, start: usize) {
         let mut sut: Option<Sut> = None;
         for (n, a) in steps.iter().enumerate() {
             let kind = a["a"].as_str().unwrap_or("").to_string();
-            let mut ev = json!({"sc": id, "i": n + 1, "a": a, "cfg": cfg, "sql": render(a, &ukeys), "ret": false});
+            let mut ev = json!({"sc": id, "i": n + 1, "a": echo(a), "cfg": cfg, "sql": render(a, &ukeys), "ret": false});
+            if n == 0 {
+                ev["un"] = json!(ukeys.len());
+                ev["rn"] = json!(hdr["R"].as_array().map(|x| x.len()).unwrap_or(0));
+                ev["mn"] = json!(hdr["M"].as_array().map(|x| x.len()).unwrap_or(0));
+            }
             let key = |f: &str| -> Key { ukeys[a[f].as_u64().expect("rank") as usize - 1].clone() };
             let rid = || a["r"].as_u64().expect("row id") as usize;
             let (out, msg): (String, String) = match kind.as_str() {
@@ -336,6 +379,18 @@ fn worker(inp: &str, out: &str, cfg: &str, start: usize) {
                 "ins" => {
                     let s = sut.as_mut().expect("no index");
                     let (o, _, m) = guarded(|| s.idx.insert(key("k"), rid()).map_err(es));
+                    (o, m)
+                }
+                "seq" => {
+                    let s = sut.as_mut().expect("no index");
+                    let ops: Vec<(Key, usize)> = a["ops"].as_array().expect("ops").iter()
+                        .map(|e| (ukeys[e[0].as_u64().unwrap() as usize - 1].clone(), e[1].as_u64().unwrap() as usize)).collect();
+                    let (o, _, m) = guarded(|| {
+                        for (k, r) in ops {
+                            s.idx.insert(k, r).map_err(es)?;
+                        }
+                        Ok(())
+                    });
                     (o, m)
                 }
                 "del" => {
@@ -407,6 +462,7 @@ fn complete_lines(path: &str) -> Vec<String> {
 fn main() {
     let args: Vec<String> = std::env::args().collect();
     let (mut inp, mut out, mut cfg, mut is_worker, mut start) = (String::new(), String::new(), "default".to_string(), false, 0usize);
+    let mut storage = "nosync".to_string();
     let mut i = 1;
     while i < args.len() {
         match args[i].as_str() {
@@ -415,6 +471,7 @@ fn main() {
             "--cfg" => { cfg = args[i + 1].clone(); i += 1; }
             "--start" => { start = args[i + 1].parse().unwrap(); i += 1; }
             "--worker" => is_worker = true,
+            "--storage" => { NATIVE.store(args[i + 1] == "native", std::sync::atomic::Ordering::Relaxed); storage = args[i + 1].clone(); i += 1; }
             x => { eprintln!("unknown arg {}", x); std::process::exit(2); }
         }
         i += 1;
@@ -433,7 +490,7 @@ fn main() {
         let script = format!("ulimit -v {} 2>/dev/null; exec \"$0\" \"$@\"", MEM_LIMIT_KB);
         let mut child = std::process::Command::new("sh")
             .arg("-c").arg(&script).arg(&exe)
-            .args(["--worker", "--in", &inp, "--out", &part, "--cfg", &cfg, "--start", &next.to_string()])
+            .args(["--worker", "--in", &inp, "--out", &part, "--cfg", &cfg, "--storage", &storage, "--start", &next.to_string()])
             .spawn()
             .expect("spawn worker");
         let (mut last_len, mut last_change, mut hung) = (0u64, Instant::now(), false);
@@ -476,7 +533,7 @@ fn main() {
             if last_i < steps.len() {
                 let a = &steps[last_i];
                 let ukeys: Vec<Key> = steps[0]["U"].as_array().map(|u| u.iter().map(key_of).collect()).unwrap_or_default();
-                vq::write_line(&mut w, &json!({"sc": sc["id"], "i": last_i + 1, "a": a, "cfg": cfg, "sql": render(a, &ukeys), "ret": false,
+                vq::write_line(&mut w, &json!({"sc": sc["id"], "i": last_i + 1, "a": echo(a), "cfg": cfg, "un": 0, "rn": 0, "mn": 0, "sql": render(a, &ukeys), "ret": false,
                     "out": if hung { "hang" } else { "abort" }, "msg": format!("worker status {:?}", status)}));
                 nev += 1;
             }
